@@ -263,6 +263,28 @@ func pureCalls() (all []pureCall, core []pureCall) {
 		X("SimplifyVisvalingamWhyatt", func(p *canvas.Path, a *args) { p.SimplifyVisvalingamWhyatt(0.1) }),
 		X("GobEncode", func(p *canvas.Path, a *args) { p.GobEncode() }),
 	}
+	// aliasing probes: a result that is a distinct object must not share spare capacity with
+	// the receiver: extending the result must leave the receiver (and the sibling results,
+	// which alias the receiver) as they were
+	ext := func(p *canvas.Path, qs ...*canvas.Path) {
+		for _, q := range qs {
+			if q != nil && q != p {
+				q.LineTo(7.5, 7.25)
+			}
+		}
+	}
+	A := func(name string, run func(p *canvas.Path, a *args)) pureCall {
+		return pureCall{name: name, group: name, role: "receiver", run: run}
+	}
+	all = append(all,
+		C(A("Split+extend-results", func(p *canvas.Path, a *args) { ext(p, p.Split()...) })),
+		A("SplitAt+extend-results", func(p *canvas.Path, a *args) { ext(p, p.SplitAt(0.5, 1.5)...) }),
+		A("Copy+extend-result", func(p *canvas.Path, a *args) { ext(p, p.Copy()) }),
+		A("Reverse+extend-result", func(p *canvas.Path, a *args) { ext(p, p.Reverse()) }),
+		C(A("Flatten+extend-result", func(p *canvas.Path, a *args) { ext(p, p.Flatten(0.1)) })),
+		A("ReplaceArcs+extend-result", func(p *canvas.Path, a *args) { ext(p, p.ReplaceArcs()) }),
+		A("Dash+extend-result", func(p *canvas.Path, a *args) { ext(p, p.Dash(0.5, 0.5, 0.25)) }),
+	)
 	B := func(name, role string, run func(p *canvas.Path, a *args)) pureCall {
 		return pureCall{name: name, group: "boolean-op", role: role, run: run}
 	}
